@@ -215,6 +215,42 @@ Fixpoint both_miss_from (fuel : nat) (f1 f2 : bool) (s : sbstate) : bool :=
 Definition lost_wakeup_possible (fence_scheduler fence_worker : bool) : bool :=
   both_miss_from 10 fence_scheduler fence_worker sb_init.
 
+
+(* ------------------------------------------------ "a stored piece goes to exactly ONE reader" — the claim of a slot
+   The pipe's owner (WriterTryReadFront, from the front) and the thieves (ReaderTryReadBack, from the back) race for the
+   same slot when ONE item is queued (front = back).  A claim is the transition of the slot flag CAN_READ -> INVALID.
+   HYPOTHESIS of the pipe contract: every reader-side claim is a single atomic compare-and-swap.  A check-then-store
+   claim lets two claimants both succeed: the task body runs twice, m_RunningCount goes negative, the next wait hangs. *)
+Inductive claim := ClaimCAS | ClaimCheckThenStore | ClaimUnknown.
+Inductive wguard := WGNotCanWrite (* if (m_Flags[i] != FLAG_CAN_WRITE) return false;  — single writer *) | WGOther.
+(* two claimants on one readable slot: flag, and per claimant (pc, what it loaded, did it succeed) *)
+Record cl := mkcl { c_pc : nat; c_seen : bool; c_won : bool }.
+Definition cl0 := mkcl 0 false false.
+(* one step of a claimant on the flag (true = CAN_READ): returns (flag', claimant') or None when it has finished *)
+Definition claim_step (k : claim) (flag : bool) (c : cl) : option (bool * cl) :=
+  match k, c_pc c with
+  | ClaimCAS, O => Some (if flag then (false, mkcl 1 flag true) else (flag, mkcl 1 flag false))   (* atomic *)
+  | ClaimCheckThenStore, O => Some (flag, mkcl 1 flag false)                                        (* plain load *)
+  | ClaimCheckThenStore, S O => Some (if c_seen c then (false, mkcl 2 true true) else (flag, mkcl 2 false false))  (* store *)
+  | _, _ => None
+  end.
+Fixpoint both_win_from (fuel : nat) (k1 k2 : claim) (flag : bool) (a b : cl) : bool :=
+  match fuel with
+  | O => false
+  | S f =>
+      (c_won a && c_won b) ||
+      match claim_step k1 flag a with Some (fl, a') => both_win_from f k1 k2 fl a' b | None => false end ||
+      match claim_step k2 flag b with Some (fl, b') => both_win_from f k1 k2 fl a b' | None => false end
+  end.
+(* can owner and thief both claim the only item?  Unknown claim shapes fail closed. *)
+Definition double_claim_possible (owner thief : claim) : bool :=
+  match owner, thief with
+  | ClaimUnknown, _ | _, ClaimUnknown => true
+  | _, _ => both_win_from 6 owner thief true cl0 cl0
+  end.
+Definition pipe_claims_ok (owner thief : claim) (w : wguard) : bool :=
+  negb (double_claim_possible owner thief) && match w with WGNotCanWrite => true | WGOther => false end.
+
 (* ================================= C. memory events on the heap LocalTask (by task id) *)
 Inductive mev := MAlloc      (* new LocalTask *)
                | MWriteRC    (* m_RunningCount = 0          AddTaskSetToPipe *)
